@@ -44,6 +44,11 @@ pub struct ObsRec {
     pub in_all_position: Option<(f64, f64)>,
     /// whether the textual view (Display of the tracker) has a line for this aircraft
     pub in_display: bool,
+    /// set when the textual view has a line for this aircraft whose content differs from the
+    /// details the API returns for it (the line as printed)
+    pub display_mismatch: Option<String>,
+    /// track entries (positioned ones, in order) as returned inside the details
+    pub details_track: Option<Vec<(f64, f64)>>,
 }
 
 #[derive(Debug, Clone, PartialEq)]
@@ -450,6 +455,12 @@ impl Model {
                     clause: "live_removed",
                     detail: format!("addr {a:06x}: silent for {} ns, threshold {} s, was removed", now - self.recs[&a].last_heard_ns, t_secs),
                 });
+                // C12: the tracked set only ever shrinks through expiry
+                out.push(Disagreement {
+                    prop: "C12",
+                    clause: "shrinks_only_through_expiry",
+                    detail: format!("addr {a:06x}: heard {} ns ago, removed by prune({t_secs})", now - self.recs[&a].last_heard_ns),
+                });
                 self.recs.remove(&a);
             }
         }
@@ -559,6 +570,14 @@ impl Model {
                     clause: "details_iff",
                     detail: format!("addr {a:06x}: details present={} with position {:?} distance {:?} altitudes {alts:?}", o.details.is_some(), o.position, o.distance),
                 });
+            }
+            if let Some(line) = &o.display_mismatch {
+                out.push(Disagreement { prop: "C14", clause: "display_line_differs", detail: format!("addr {a:06x}: the text view prints {line:?}, which is not what aircraft_details returns for this aircraft") });
+            }
+            if let Some(dt) = &o.details_track {
+                if *dt != o.track {
+                    out.push(Disagreement { prop: "C14", clause: "details_agree", detail: format!("addr {a:06x}: track inside the details {dt:?} vs the record's {:?}", o.track) });
+                }
             }
             if o.in_display != o.details.is_some() {
                 out.push(Disagreement { prop: "C14", clause: "display_iff_details", detail: format!("addr {a:06x}: text view line present={} details present={}", o.in_display, o.details.is_some()) });
